@@ -7,6 +7,8 @@ import os
 from vlib import coq_N_list, coq_list, coq_bool, coq_opt
 
 WS_NO_NL = (9, 11, 12, 13, 32)
+# which repairs of fixes/C03-*.diff the tree under test is expected to contain (see checks/C03.py)
+CFG = set(x for x in os.environ.get("VERIF_C03_CFG", "").split(",") if x)
 
 
 # ---------------------------------------------------------------- token view of a lexed file
@@ -163,7 +165,7 @@ def go_ctext(kind, text, nl):
     out = [lines[0]]
     for l in lines[1:]:
         j = 0
-        while j < len(l) and l[j] in (32, 9):
+        while j < len(l) and l[j] in (WS_NO_NL if "fix_ws" in CFG else (32, 9)):
             j += 1
         if j == len(l):
             l = b""
@@ -248,7 +250,7 @@ def go_attr(has_prev, items, nxt, extra=False):
             trail, det = det[0], det[1:]
         elif last["e"] < nstart - 1:
             trail, det = det[0], []
-        elif nxt in ("eof", "close", "sep"):
+        elif nxt in ("eof", "close") or (nxt == "sep" and (extra or "fix_sep" not in CFG)):
             if (not extra) and nxt != "eof" and first["s"] == 0 and last["e"] == nstart:
                 pass
             else:
@@ -340,7 +342,7 @@ def render(group, ctext):
 
 def go_out(has_prev, items, nxt, extra=False):
     t, d, l = go_attr(has_prev, items, nxt, extra)
-    f = lambda g: render(g, go_ctext) if g else None
+    f = lambda g: (render(g, go_ctext) or (None if "fix_empty" in CFG else b"")) if g else None
     return f(t), [render(g, go_ctext) for g in d], f(l)
 
 
